@@ -179,5 +179,5 @@ def run(res, facts, tier):
     c08_url.run_rule(res, facts, tier)
     from . import c08_transcode
     c08_transcode.run_rule(res, facts, tier)
-    from . import c04_stream
-    c04_stream.run_c08_rule(res, facts, tier)
+    from . import c04_pairs
+    c04_pairs.run_c08_rule(res, facts, tier)
